@@ -55,10 +55,15 @@ Inductive tfield :=
 | FWksProto                                (* WKS protocol: a number (names go to socket.getprotobyname: not modelled) *)
 | FWksPorts                                (* WKS: the remaining tokens are port numbers (names: getservbyname, not modelled);
                                               the value is the bitmap *)
+| FLocRec                                  (* the whole LOC record (optional minutes / seconds, float altitude and sizes) *)
 | FSvcbRec                                 (* the whole SVCB / HTTPS record: priority, target, parameters *)
 | FAplRest                                 (* APL: the remaining tokens as [!]family:address/prefix items *)
 | FKeyRec.                                 (* the whole KEY record: flags (number or LegacyFlag mnemonics joined by "|"),
                                               protocol (number or mnemonic), algorithm, and the key unless the flags say NOKEY *)
+
+(* IEEE-754 binary64 values (see the arithmetic further down) *)
+Record dbl := mkD { dneg : bool; dm : Z; de : Z }.
+Inductive fval := FFin (d : dbl) | FInf (neg : bool).
 
 (* SVCB / HTTPS parameter values (dns/rdtypes/svcbbase.py) *)
 Inductive pval :=
@@ -83,6 +88,8 @@ Inductive tval :=
 | VGw (g a : Z) (gw : gwval)
 | VApl (items : list (Z * bool * list Z * Z))   (* family, negation, address, prefix; the address is 4 / 16 octets for
                                                   families 1 / 2 and the hex text of the octets for any other family *)
+| VLoc (lat lon : Z * Z * Z * Z * Z) (alt : Z) (size hp vp : dbl)
+    (* degrees, minutes, seconds, milliseconds, sign; altitude in whole cm; the three sizes as the floats kept by the record *)
 | VSvcb (prio : Z) (target : name) (params : list (Z * pval))    (* parameters in key order *)
 | VKey (flags proto alg : Z) (algtext : list Z) (key : list Z).
    (* algtext: the algorithm token between the token phase and the constructor ([] afterwards) *)
@@ -745,6 +752,91 @@ Definition nsap_from_text (t : list Z) : res (list Z) :=
     if negb (Nat.even (length h)) then Lib eSyntax
     else do e <- utf8_encode h; unhexlify e.
 
+Fixpoint split_once (sep : Z) (s : list Z) : option (list Z * list Z) :=     (* s.split(sep, 1) with two results *)
+  match s with
+  | [] => None
+  | c :: r => if c =? sep then Some ([], r)
+              else match split_once sep r with Some (a, b) => Some (c :: a, b) | None => None end
+  end.
+
+(* ================================================================== IEEE-754 binary64 (CPython float) *)
+(* A finite double is (-1)^neg * m * 2^e with 0 <= m < 2^53 and -1074 <= e <= 971, normalised so that
+   m >= 2^52 unless e = -1074 (subnormals and zero: zero is m = 0, e = -1074).  Only what LOC needs:
+   correctly rounded (nearest, ties to even) conversion of a non-negative rational, * 100.0, / 100.0,
+   round(), int(), format(x, "0.2f"). *)
+Definition p52 : Z := 4503599627370496.
+Definition p53 : Z := 9007199254740992.
+
+(* round-half-even of sn / sd (sn >= 0, sd > 0) *)
+Definition rdiv_even (sn sd : Z) : Z :=
+  let q := sn / sd in
+  let r := sn mod sd in
+  if (2 * r >? sd) || ((2 * r =? sd) && Z.odd q) then q + 1 else q.
+
+(* the scaled quotient for exponent e: n / (d * 2^e) as numerator and denominator *)
+Definition scaled (n d e : Z) : Z * Z := if e >=? 0 then (n, d * 2 ^ e) else (n * 2 ^ (- e), d).
+
+(* the exponent e with 2^52 <= n / (d 2^e) < 2^53 (for n, d > 0), not below -1074 *)
+Definition pick_exp (n d : Z) : Z :=
+  let e0 := Z.log2 n - Z.log2 d - 52 in
+  let fits e := let '(sn, sd) := scaled n d e in (p52 * sd <=? sn) && (sn <? p53 * sd) in
+  let e := if fits (e0 - 1) then e0 - 1 else if fits e0 then e0 else e0 + 1 in
+  Z.max e (-1074).
+
+Definition round_q (neg : bool) (n d : Z) : fval :=
+  if n =? 0 then FFin (mkD neg 0 (-1074))
+  else
+    let e := pick_exp n d in
+    let '(sn, sd) := scaled n d e in
+    let m := rdiv_even sn sd in
+    let '(m, e) := if m =? p53 then (p52, e + 1) else (m, e) in
+    if e >? 971 then FInf neg else FFin (mkD neg m e).
+
+(* the value as numerator / denominator *)
+Definition dbl_q (x : dbl) : Z * Z := if de x >=? 0 then (dm x * 2 ^ de x, 1) else (dm x, 2 ^ (- de x)).
+
+Definition fmul100 (x : fval) : fval :=
+  match x with
+  | FFin d => let '(n, q) := dbl_q d in round_q (dneg d) (n * 100) q
+  | FInf s => FInf s
+  end.
+
+Definition fdiv100 (d : dbl) : fval := let '(n, q) := dbl_q d in round_q (dneg d) n (q * 100).
+
+(* round(x): nearest integer, ties to even; int(x): toward zero *)
+Definition dbl_round (d : dbl) : Z := let '(n, q) := dbl_q d in let r := rdiv_even n q in if dneg d then - r else r.
+Definition dbl_trunc (d : dbl) : Z := let '(n, q) := dbl_q d in let r := n / q in if dneg d then - r else r.
+
+(* float(i) for an integer (exact below 2^53, rounded above) *)
+Definition dbl_of_Z (z : Z) : fval := round_q (z <? 0) (Z.abs z) 1.
+
+(* format(x, "0.2f") *)
+Definition pad2 (z : Z) : list Z := [48 + z / 10; 48 + z mod 10].
+Definition format_2f (d : dbl) : list Z :=
+  let '(n, q) := dbl_q d in
+  let r := rdiv_even (n * 100) q in
+  (if dneg d then [45] else []) ++ dec (r / 100) ++ [46] ++ pad2 (r mod 100).
+
+(* float(text) for [+-]digits[.digits] / [+-].digits; every other spelling float() accepts (exponents, inf, nan,
+   underscores, blanks) is outside the model *)
+Definition float_of_text (t : list Z) : res fval :=
+  let '(neg, body) := match t with
+                      | c :: r => if c =? 45 then (true, r) else if c =? 43 then (false, r) else (false, t)
+                      | [] => (false, t)
+                      end in
+  match split_once 46 body with
+  | None =>
+      if negb (is_nil body) && forallb is_decimal body then Ok (round_q neg (dec_value body 0) 1)
+      else Internal iNotModelled
+  | Some (ip, fp) =>
+      if forallb is_decimal ip && forallb is_decimal fp && negb (is_nil ip && is_nil fp)
+      then Ok (round_q neg (dec_value (ip ++ fp) 0) (10 ^ zlen fp))
+      else Internal iNotModelled
+  end.
+
+Definition dbl_eqb (a b : dbl) : bool :=
+  (dm a =? dm b) && (de a =? de b) && (Bool.eqb (dneg a) (dneg b) || (dm a =? 0)).
+
 (* dns/rdtypes/IN/WKS.py: bitmap[i] |= 0x80 >> (serv % 8) after growing the bytearray to i + 1 octets *)
 Definition wks_set (bm : list Z) (serv : Z) : list Z :=
   let i := serv / 8 in
@@ -764,13 +856,6 @@ Definition wks_token_port (t : token) : res Z :=
 Definition wks_ports (bm : list Z) : list Z := window_types 0 0 bm.
 
 (* dns/rdtypes/IN/APL.py *)
-Fixpoint split_once (sep : Z) (s : list Z) : option (list Z * list Z) :=     (* s.split(sep, 1) with two results *)
-  match s with
-  | [] => None
-  | c :: r => if c =? sep then Some ([], r)
-              else match split_once sep r with Some (a, b) => Some (c :: a, b) | None => None end
-  end.
-
 Definition aplitem := (Z * bool * list Z * Z)%type.
 
 (* APLItem.__init__ *)
@@ -824,6 +909,26 @@ Definition apl_item_text (it : aplitem) : res (list Z) :=
 Definition name_to_styled_text (st : style) (n : name) : res (list Z) :=
   do n1 <- choose_relativity n (s_origin st) (s_relativize st);
   Ok (NameM.to_text n1).
+
+(* ---------- dns/rdtypes/ANY/LOC.py: to_styled_text ---------- *)
+Definition the_dbl (x : fval) : dbl := match x with FFin d => d | FInf s => mkD s 0 (-1074) end.
+Definition loc_default_size : dbl := the_dbl (round_q false 100 1).
+Definition loc_default_hprec : dbl := the_dbl (round_q false 1000000 1).
+Definition loc_default_vprec : dbl := the_dbl (round_q false 1000 1).
+
+Definition pad3 (z : Z) : list Z := if z <? 10 then [48; 48] ++ dec z else if z <? 100 then 48 :: dec z else dec z.
+
+Definition coord_text (cd : Z * Z * Z * Z * Z) (pos neg : Z) : list Z :=
+  let '(d, m, s, ms, sign) := cd in
+  dec d ++ [32] ++ dec m ++ [32] ++ dec s ++ [46] ++ pad3 ms ++ [32] ++ [if sign >? 0 then pos else neg].
+
+(* f"{x / 100.0:0.2f}m" *)
+Definition meters_text (x : dbl) : list Z := format_2f (the_dbl (fdiv100 x)) ++ [109].
+
+Definition loc_to_text (lat lon : Z * Z * Z * Z * Z) (alt : Z) (size hp vp : dbl) : list Z :=
+  coord_text lat 78 83 ++ [32] ++ coord_text lon 69 87 ++ [32] ++ meters_text (the_dbl (dbl_of_Z alt))
+  ++ (if dbl_eqb size loc_default_size && dbl_eqb hp loc_default_hprec && dbl_eqb vp loc_default_vprec then []
+      else [32] ++ meters_text size ++ [32] ++ meters_text hp ++ [32] ++ meters_text vp).
 
 (* ---------- SVCB / HTTPS: to_styled_text ---------- *)
 (* svcbbase._escapify: comma and backslash *)
@@ -913,6 +1018,7 @@ Definition print_field (st : style) (f : tfield) (v : tval) : res (list Z) :=
   | FGposStr, VBytes b => Ok b          (* self.latitude.decode(): the validated strings are ASCII *)
   | FAplRest, VApl items => do ts <- map_res apl_item_text items; Ok (join_sp ts)
   | FSvcbRec, VSvcb p n ps => svcb_to_text st p n ps
+  | FLocRec, VLoc lat lon alt sz hp vp => Ok (loc_to_text lat lon alt sz hp vp)
   | FAddr4S, VBytes b => ipv4_ntoa b
   | FWksProto, VInt z => Ok (dec z)
   | FWksPorts, VBytes bm => Ok (join_sp (map dec (wks_ports bm)))
@@ -1162,6 +1268,75 @@ Definition svcb_from_text (c : pctx) (st : tstate) : res (Z * name * list (Z * p
   do pl <- svcb_params_loop (rem_fuel st1) st1 [];
   if svcb_ctor_ok (fst pl) then Ok (fst ps, fst ns, fst pl, snd pl) else Internal iValueError.
 
+(* ---------- dns/rdtypes/ANY/LOC.py: from_text ---------- *)
+Definition isdecimal_str (t : list Z) : bool := negb (is_nil t) && forallb is_decimal t.
+
+(* one coordinate: degrees [minutes [seconds[.milliseconds]]] hemisphere *)
+Definition loc_coord (st : tstate) (hpos hneg : Z) : res ((Z * Z * Z * Z * Z) * tstate) :=
+  do ds <- get_int st 10;
+  do t1 <- get_string (snd ds) 0;
+  do r <- (if isdecimal_str (fst t1) then
+             let minutes := dec_value (fst t1) 0 in
+             do t2 <- get_string (snd t1) 0;
+             if existsb (Z.eqb 46) (fst t2) then
+               match split_on 46 (fst t2) [] with
+               | [seconds; millis] =>
+                   if negb (isdecimal_str seconds) then Lib eSyntax
+                   else
+                     let l := length millis in
+                     if Nat.eqb l 0 || Nat.ltb 3 l || negb (forallb is_decimal millis) then Lib eSyntax
+                     else
+                       let m := if Nat.eqb l 1 then 100 else if Nat.eqb l 2 then 10 else 1 in
+                       do t3 <- get_string (snd t2) 0;
+                       Ok (minutes, dec_value seconds 0, m * dec_value millis 0, t3)
+               | _ => Internal iValueError          (* seconds, milliseconds = t.split(".") *)
+               end
+             else if isdecimal_str (fst t2) then
+               do t3 <- get_string (snd t2) 0; Ok (minutes, dec_value (fst t2) 0, 0, t3)
+             else Ok (minutes, 0, 0, t2)
+           else Ok (0, 0, 0, t1));
+  let '(minutes, seconds, millis, th) := r in
+  if zlist_eqb (fst th) [hneg] then Ok ((fst ds, minutes, seconds, millis, -1), snd th)
+  else if zlist_eqb (fst th) [hpos] then Ok ((fst ds, minutes, seconds, millis, 1), snd th)
+  else Lib eSyntax.
+
+(* value[-1] == "m" -> value[:-1]; float(value) * 100.0 *)
+Definition loc_meters (t : list Z) : res fval :=
+  match rev t with
+  | [] => Internal iIndexError
+  | c :: r => do x <- float_of_text (if c =? 109 then rev r else t); Ok (fmul100 x)
+  end.
+
+(* _encode_size(what, desc) as a check: int(what), _exponent_of *)
+Definition loc_size_ok (x : fval) : res unit :=
+  match x with
+  | FInf _ => Internal iValueError                      (* OverflowError *)
+  | FFin d =>
+      let w := dbl_trunc d in
+      if w =? 0 then Ok tt
+      else if (w <? 1) || (w >=? 10000000000) then Lib eSyntax else Ok tt
+  end.
+
+Definition loc_coord_ok (cd : Z * Z * Z * Z * Z) (lim : Z) : bool :=
+  let '(d, m, s, ms, sign) := cd in
+  (- lim <=? d) && (d <=? lim) && (0 <=? m) && (m <=? 59) && (0 <=? s) && (s <=? 59) && (0 <=? ms) && (ms <=? 999).
+
+Definition loc_from_text (st : tstate) : res (tval * tstate) :=
+  do la <- loc_coord st 78 83;
+  do lo <- loc_coord (snd la) 69 87;
+  do ta <- get_string (snd lo) 0;
+  do ax <- loc_meters (fst ta);
+  do alt <- (match ax with FFin d => Ok (dbl_round d) | FInf _ => Internal iValueError end);
+  do ts <- get_remaining (snd ta) 3;
+  do vals <- map_res (fun t => do u <- unescape t; loc_meters (tvalue u)) (fst ts);
+  let size := nth 0 vals (FFin loc_default_size) in
+  let hp := nth 1 vals (FFin loc_default_hprec) in
+  let vp := nth 2 vals (FFin loc_default_vprec) in
+  do _ <- loc_size_ok size; do _ <- loc_size_ok hp; do _ <- loc_size_ok vp;
+  if negb (loc_coord_ok (fst la) 90) || negb (loc_coord_ok (fst lo) 180) then Internal iValueError
+  else if (alt <? -10000000) || (alt >=? 4284967296) then Internal iValueError
+  else Ok (VLoc (fst la) (fst lo) alt (the_dbl size) (the_dbl hp) (the_dbl vp), snd ts).
+
 (* token-level part of cls.from_text: what is read (and converted) before the constructor runs *)
 Definition parse_field (c : pctx) (f : tfield) (st : tstate) : res (tval * tstate) :=
   match f with
@@ -1214,6 +1389,7 @@ Definition parse_field (c : pctx) (f : tfield) (st : tstate) : res (tval * tstat
       do ts <- get_remaining st 0;
       do ports <- map_res wks_token_port (fst ts);
       Ok (VBytes (truncate_bitmap (fold_left wks_set ports [])), snd ts)
+  | FLocRec => loc_from_text st
   | FSvcbRec => do r <- svcb_from_text c st; let '(p, n, ps, st') := r in Ok (VSvcb p n ps, st')
   | FAplRest => do ts <- get_remaining st 0; do items <- map_res apl_item_of_token (fst ts); Ok (VApl items, snd ts)
   | FMac =>
@@ -1376,6 +1552,7 @@ Definition schema_of (rdtype : Z) : option (list tfield) :=
   else if rdtype =? 25 then Some [FKeyRec]                                         (* KEY *)
   else if rdtype =? 42 then Some [FAplRest]                                        (* APL *)
   else if (rdtype =? 64) || (rdtype =? 65) then Some [FSvcbRec]                    (* SVCB HTTPS *)
+  else if rdtype =? 29 then Some [FLocRec]                                         (* LOC *)
   else if rdtype =? 11 then Some [FAddr4S; FWksProto; FWksPorts]                   (* WKS *)
   else if rdtype =? 250 then Some [FNameNoRel; FDec max48; u16; FMac; u16; FEnum KRcode; FOther]   (* TSIG *)
   else if rdtype =? 45 then Some [u8; FGw true; FB64RestE]                         (* IPSECKEY *)
@@ -1441,6 +1618,9 @@ Definition obs_of_val (v : tval) : obs :=
   | VWindows ws => L (map (fun w => L [I (fst w); B (snd w)]) ws)
   | VNames l => L (map obs_of_name l)
   | VKey f p a _ k => L [I f; I p; I a; B k]
+  | VLoc (d1, m1, s1, ms1, sg1) (d2, m2, s2, ms2, sg2) alt sz hp vp =>
+      let od := fun x : dbl => L [I (if dneg x then 1 else 0); I (dm x); I (de x)] in
+      L [L [I d1; I m1; I s1; I ms1; I sg1]; L [I d2; I m2; I s2; I ms2; I sg2]; I alt; od sz; od hp; od vp]
   | VSvcb p n ps => L [I p; obs_of_name n; L (map (fun kv : Z * pval => I (fst kv)) ps)]
   | VApl items => L (map (fun it : aplitem => let '(f, n, a, p) := it in L [I f; I (if n then 1 else 0); B a; I p]) items)
   | VGw g a gw => L [I g; I a; match gw with GwNone => I 0 | GwText t => obs_of_text t | GwName n => obs_of_name n end]
@@ -1499,6 +1679,10 @@ Fixpoint vals_of_obs (fs : list tfield) (os : list obs) : option (list tval) :=
           | FMac, B b => Some (VBytes b :: r)
           | FGposStr, B b => Some (VBytes b :: r)
           | FKeyRec, L [I f; I p; I a; B k] => Some (VKey f p a [] k :: r)
+          | FLocRec, L [L [I d1; I m1; I s1; I ms1; I sg1]; L [I d2; I m2; I s2; I ms2; I sg2]; I alt;
+                        L [I n1; I a1; I e1]; L [I n2; I a2; I e2]; L [I n3; I a3; I e3]] =>
+              Some (VLoc (d1, m1, s1, ms1, sg1) (d2, m2, s2, ms2, sg2) alt
+                         (mkD (n1 =? 1) a1 e1) (mkD (n2 =? 1) a2 e2) (mkD (n3 =? 1) a3 e3) :: r)
           | FAddr4S, B b => Some (VBytes b :: r)
           | FWksProto, I z => Some (VInt z :: r)
           | FWksPorts, B b => Some (VBytes b :: r)
